@@ -61,3 +61,11 @@ pub open spec fn ascii_size(s: Seq<u8>) -> int
     else if s[0] <= 127 { 1 + ascii_size(s.skip(1)) }
     else { 2 + ascii_size(s.skip(1)) }
 }
+pub proof fn lemma_ascii_size_single()
+    ensures forall|s: Seq<u8>| s.len() == 1 ==> #[trigger] ascii_size(s) == (if s[0] <= 127 { 1int } else { 2int }),
+{
+    assert forall|s: Seq<u8>| s.len() == 1 implies #[trigger] ascii_size(s) == (if s[0] <= 127 { 1int } else { 2int }) by {
+        assert(s.skip(1).len() == 0);
+        assert(ascii_size(s.skip(1)) == 0);
+    }
+}
